@@ -1,4 +1,5 @@
 // @id C04.entry_equiv
+// @also C09
 // @engine B
 // @entry vfh_C04_entry_equiv
 // @shared_state_watch
